@@ -1,7 +1,7 @@
 (** Property C01 — theorems only.  [run] is the reference semantics (Core.Sem); the extracted [run] is
     the oracle of the failing-input search in harness/props/C01.py. *)
 From Coq Require Import ZArith List Bool.
-From Core Require Import Syntax Sem Equiv PartialEval PartialEvalSound Subst RewriteAt ShiftLoop.
+From Core Require Import Syntax Sem Equiv PartialEval PartialEvalSound Subst RewriteAt ShiftLoop DivideLoop.
 Import ListNotations.
 Local Open Scope Z_scope.
 
@@ -111,7 +111,7 @@ Print Assumptions C01_lift_if_out_of_for.
     refuses them when the body writes the field, repaired defect C01-shift_loop-config-bound.) *)
 Theorem C01_shift_loop : forall i lo hi nlo V body par,
   ~ In i V -> ShiftLoop.index_over V lo = true -> ShiftLoop.index_over V nlo = true ->
-  forallb (Subst.okbind (ShiftLoop.okb i V)) body = true ->
+  forallb (Subst.okbind (ShiftLoop.okb i V)) body = true -> forallb (Subst.nm_s i (fun _ => false)) body = true ->
   (forall st l, eval st lo = Ok (VInt l) -> exists nl, eval st nlo = Ok (VInt nl)) ->
   refines [For i lo hi body par] [ShiftLoop.shift_loop_rw i lo hi nlo body par].
 Proof.
@@ -121,15 +121,15 @@ Print Assumptions C01_shift_loop.
 
 (** the substitution lemma behind shift_loop / divide_loop / unroll / partial_eval, in the form the
     rules use it: running body[x := c] in the transformed environment simulates running body *)
-Theorem C01_substitution : forall x c cv okb T (Good : env -> Prop),
+Theorem C01_substitution : forall x c cv okb T (Good : env -> Prop) hid,
   okb x = false ->
   (forall st, Good (s_env st) -> eval st c = Ok cv) ->
   (forall st, Good (s_env st) -> eval_view st c = Err TypeErr) ->
-  (forall e y, y <> x -> lookup y (T e) = lookup y e) ->
-  (forall e, match lookup x (T e) with Some (BView _) => False | _ => True end) ->
+  (forall e y, y <> x -> hid y = false -> lookup y (T e) = lookup y e) ->
   (forall y b e, okb y = true -> T ((y, b) :: e) = (y, b) :: T e) ->
   (forall y b e, okb y = true -> Good e -> Good ((y, b) :: e)) ->
-  forall body st, forallb (Subst.okbind okb) body = true -> Subst.inv x cv T Good st ->
+  forall body st, forallb (Subst.okbind okb) body = true -> forallb (Subst.nm_s x hid) body = true ->
+  Subst.inv x cv T Good st ->
   PartialEvalSound.rsim (Subst.SR x cv T Good)
     (exec_list body st) (exec_list (PartialEval.pe_ss x c body) (Subst.tst T st)).
 Proof. exact Subst.body_sub. Qed.
@@ -150,3 +150,54 @@ Theorem C01_rewrite_everywhere : forall f ok,
   forall p, RewriteAt.ok_proc f ok p = true -> preserves p (RewriteAt.rw_proc f p).
 Proof. intros f ok H p Hok inp bufs cfg. apply RewriteAt.rw_proc_preserves with (ok := ok); assumption. Qed.
 Print Assumptions C01_rewrite_everywhere.
+
+(** divide_loop, tail="guard": for i in seq(0, N) ~> for io in seq(0, (N+q-1)/q): for ii in seq(0, q):
+    if q*io+ii < N: body[i := q*io+ii].  io, ii are fresh (not mentioned and not bound in the body), N is an
+    index expression over variables the body does not re-bind, q > 0. *)
+Theorem C01_divide_loop_guard : forall i io ii q N V body par,
+  0 < q -> i <> io -> i <> ii -> io <> ii ->
+  ~ In i V -> ~ In io V -> ~ In ii V -> ShiftLoop.index_over V N = true ->
+  forallb (Subst.okbind (DivideLoop.okbF i io ii)) body = true ->
+  forallb (Subst.nm_s i (DivideLoop.hidF io ii)) body = true ->
+  refines [For i (Int 0) N body par] [DivideLoop.divide_guard_rw i io ii q N body par].
+Proof. exact DivideLoop.rule_divide_loop_guard. Qed.
+Print Assumptions C01_divide_loop_guard.
+
+(** divide_loop, perfect=True: the nest without guard, under the divisibility contract that the
+    implementation discharges with its SMT check (Check_IsDivisible) *)
+Theorem C01_divide_loop_perfect : forall i io ii q N body par,
+  0 < q -> i <> io -> i <> ii -> io <> ii ->
+  forallb (Subst.okbind (DivideLoop.okbF i io ii)) body = true ->
+  forallb (Subst.nm_s i (DivideLoop.hidF io ii)) body = true ->
+  (forall st n, eval st N = Ok (VInt n) -> n mod q = 0) ->
+  refines [For i (Int 0) N body par] [DivideLoop.flat_rw i io ii q (DivideLoop.perfect_hi q N) body par].
+Proof. exact DivideLoop.rule_divide_loop_perfect_hi. Qed.
+Print Assumptions C01_divide_loop_perfect.
+
+(** the two building blocks, usable on their own: extending a loop under a guard, flattening a loop nest *)
+Theorem C01_guard_extend : forall i N E V body par,
+  ~ In i V -> ShiftLoop.depends_on V N ->
+  (forall st n, eval st N = Ok (VInt n) -> exists e, eval st E = Ok (VInt e) /\ n <= e) ->
+  refines [For i (Int 0) N body par] [For i (Int 0) E (DivideLoop.guarded i N body) par].
+Proof. exact DivideLoop.rule_guard_extend. Qed.
+Print Assumptions C01_guard_extend.
+
+Theorem C01_flatten : forall i io ii q, 0 < q -> i <> io -> i <> ii -> io <> ii ->
+  forall E H B par,
+  forallb (Subst.okbind (DivideLoop.okbF i io ii)) B = true -> forallb (Subst.nm_s i (DivideLoop.hidF io ii)) B = true ->
+  (forall st e, eval st E = Ok (VInt e) -> exists h, eval st H = Ok (VInt h) /\ e = h * q) ->
+  refines [For i (Int 0) E B par] [DivideLoop.flat_rw i io ii q H B par].
+Proof. exact DivideLoop.rule_flatten. Qed.
+Print Assumptions C01_flatten.
+
+(** whole procedures: [divide_guard_proc] / [divide_perfect_proc] are the terms Procedure.divide_loop returns
+    (compared term by term on every run); they preserve the source under the decidable side conditions *)
+Theorem C01_divide_guard_proc : forall i io ii q p,
+  DivideLoop.divide_guard_ok_proc i io ii q p = true -> preserves p (DivideLoop.divide_guard_proc i io ii q p).
+Proof. intros i io ii q p H inp bufs cfg. apply DivideLoop.divide_guard_proc_preserves, H. Qed.
+Print Assumptions C01_divide_guard_proc.
+
+Theorem C01_divide_perfect_proc : forall i io ii q p,
+  DivideLoop.divide_perfect_ok_proc i io ii q p = true -> preserves p (DivideLoop.divide_perfect_proc i io ii q p).
+Proof. intros i io ii q p H inp bufs cfg. apply DivideLoop.divide_perfect_proc_preserves, H. Qed.
+Print Assumptions C01_divide_perfect_proc.
